@@ -1,12 +1,12 @@
 SPECIFICATION Spec
 CONSTANTS
-  Kind = "provider"
+  Kind = "function"
   Starts <- StartsAll
   Certs <- BoolBoth
-  Tmpls <- TmplPlain
-  Drc0 <- DrcNamed
-  EnvKinds <- EnvSeq
-  Interf <- InterfDeps
+  Tmpls <- TmplBoth
+  Drc0 <- DrcAll
+  EnvKinds <- EnvCalm
+  Interf <- InterfNone
   MaxEdits = 2
   MaxFaults = 1
   MaxRecs = 2
